@@ -40,7 +40,6 @@ EXPECTED_BODIES = {
     "pkg/redis/client/proto/writer.go:WriteArgs": "c2b94c4e34ee",
     "pkg/redis/client/proto/writer.go:bytes": "546dd69ce953",
     "pkg/redis/client/proto/writer.go:crlf": "2739d17cbf5c",
-    "pkg/redis/client/proto/writer.go:float": "022ba48c6496",
     "pkg/redis/client/proto/writer.go:int": "047df52c198c",
     "pkg/redis/client/proto/writer.go:string": "9c796880ca91",
     "pkg/redis/client/proto/writer.go:uint": "de10744b43d8",
